@@ -48,10 +48,14 @@ func (c hcase) key() string {
 	return fmt.Sprintf("%d/%d/%v/%v/%v", c.kind, c.maxFailed, c.hasN, c.hasF, c.probes)
 }
 
+// timing of one monitor run; the slow profile is used to re-run a case whose observation looks
+// wrong, so that a scheduling hiccup (callback attributed to the neighbouring probe, an "ok"
+// probe that missed its deadline on a loaded machine) is not reported as a defect
+type htiming struct{ interval, timeout, grace time.Duration }
+
 var (
-	hInterval = 24 * time.Millisecond
-	hTimeout  = 8 * time.Millisecond
-	hGrace    = 6 * time.Millisecond
+	hFast = htiming{40 * time.Millisecond, 100 * time.Millisecond, 10 * time.Millisecond}
+	hSlow = htiming{300 * time.Millisecond, 500 * time.Millisecond, 100 * time.Millisecond}
 )
 
 // ---- scripted backend: one address, three listener shapes ----
@@ -245,7 +249,7 @@ type hresult struct {
 	invalid string
 }
 
-func runHealthCase(c hcase, ip string) hresult {
+func runHealthCase(c hcase, ip string, tm htiming) hresult {
 	b, err := newBackend(ip, c.kind == 1)
 	if err != nil {
 		return hresult{invalid: "listen: " + err.Error()}
@@ -271,7 +275,7 @@ func runHealthCase(c hcase, ip string) hresult {
 		return hresult{invalid: "prepare: " + err.Error()}
 	}
 	mon := health.NewMonitor(context.Background(), cfg, b.addr(), normalFn, failedFn)
-	mon.VerifSetTiming(hInterval, hTimeout)
+	mon.VerifSetTiming(tm.interval, tm.timeout)
 	prevFailed, _ := mon.VerifSnapshot()
 	mon.Start()
 	defer mon.Stop()
@@ -287,7 +291,7 @@ func runHealthCase(c hcase, ip string) hresult {
 				return hresult{invalid: fmt.Sprintf("probe %d never reached the backend", i)}
 			}
 		} else {
-			deadline := time.Now().Add(hTimeout + hInterval + 2*time.Second)
+			deadline := time.Now().Add(tm.timeout + tm.interval + 2*time.Second)
 			for {
 				f, _ := mon.VerifSnapshot()
 				if f != prevFailed || time.Now().After(deadline) {
@@ -296,7 +300,7 @@ func runHealthCase(c hcase, ip string) hresult {
 				time.Sleep(150 * time.Microsecond)
 			}
 		}
-		time.Sleep(hGrace)
+		time.Sleep(tm.grace)
 		prevFailed, _ = mon.VerifSnapshot()
 		mu.Lock()
 		ev := append([]int{}, calls[taken:]...)
@@ -311,6 +315,52 @@ func runHealthCase(c hcase, ip string) hresult {
 		}
 	}
 	return res
+}
+
+// expectedCallbacks is used only to decide whether a case is re-run with the slow timing
+// profile; the verdict is taken in Coq on whatever was finally observed.
+func expectedCallbacks(c hcase) [][]int {
+	max := c.maxFailed
+	if max <= 0 {
+		max = 1
+	}
+	ok := false
+	failed := 0
+	res := make([][]int, len(c.probes))
+	for i, o := range c.probes {
+		res[i] = []int{}
+		if !probeFails(c.kind, o) {
+			failed = 0
+			if !ok && c.hasN {
+				ok = true
+				res[i] = []int{0}
+			}
+		} else {
+			failed++
+			if ok && failed >= max && c.hasF {
+				ok = false
+				res[i] = []int{1}
+			}
+		}
+	}
+	return res
+}
+
+func sameEvents(a, b [][]int) bool {
+	if len(a) != len(b) {
+		return false
+	}
+	for i := range a {
+		if len(a[i]) != len(b[i]) {
+			return false
+		}
+		for j := range a[i] {
+			if a[i][j] != b[i][j] {
+				return false
+			}
+		}
+	}
+	return true
 }
 
 // ---- specification monitor evaluated on the Go side (gives a readable finding) ----
@@ -497,14 +547,11 @@ func runHealth(cfg *hx.RunCfg) error {
 	cases := genHealthCases(cfg)
 	workers := 24
 	if cfg.Tier == "thorough" {
-		workers = 64
-	}
-	type out struct {
-		idx int
-		res hresult
+		workers = 128
 	}
 	results := make([]hresult, len(cases))
-	var next atomic.Int64
+	var next, slowRuns, timingFlakes atomic.Int64
+	const maxSlowRuns = 16
 	var wg sync.WaitGroup
 	for w := 0; w < workers; w++ {
 		wg.Add(1)
@@ -516,10 +563,18 @@ func runHealth(cfg *hx.RunCfg) error {
 				if i >= len(cases) {
 					return
 				}
-				r := runHealthCase(cases[i], ip)
+				r := runHealthCase(cases[i], ip, hFast)
 				if r.invalid != "" {
 					// once more: a port may have been taken between two listens
-					r = runHealthCase(cases[i], ip)
+					r = runHealthCase(cases[i], ip, hFast)
+				}
+				if r.invalid == "" && !sameEvents(r.events, expectedCallbacks(cases[i])) && slowRuns.Add(1) <= maxSlowRuns {
+					if r2 := runHealthCase(cases[i], ip, hSlow); r2.invalid == "" {
+						if sameEvents(r2.events, expectedCallbacks(cases[i])) {
+							timingFlakes.Add(1)
+						}
+						r = r2
+					}
 				}
 				results[i] = r
 			}
@@ -615,6 +670,8 @@ func runHealth(cfg *hx.RunCfg) error {
 	cfg.St["samples"] = samples
 	cfg.St["distribution"] = dist
 	cfg.St["impl_failures"] = failures
-	cfg.St["timing_ms"] = map[string]any{"interval": hInterval.Milliseconds(), "timeout": hTimeout.Milliseconds(), "grace": hGrace.Milliseconds()}
+	cfg.St["timing_ms"] = map[string]any{"interval": hFast.interval.Milliseconds(), "timeout": hFast.timeout.Milliseconds(), "grace": hFast.grace.Milliseconds()}
+	cfg.St["rerun_slow"] = slowRuns.Load()
+	cfg.St["timing_flakes_absorbed"] = timingFlakes.Load()
 	return nil
 }
